@@ -425,6 +425,15 @@ def cases(tier, rng):
         for mm in MATH_MODES:
             for s in env_templates(E, 'alpha', 'emph')[:6]:
                 yield {'s': s, 'o': dict(DEFAULT_OPTS, mm=mm)}
+    # one name met as environment AND as macro by the same converter object (the two namespaces are separate): every environment
+    # name in its low-level macro form (\equation ... \endequation, \def\balign{\align}), every macro name as an environment
+    for E in D['envs']:
+        for s in ('\\begin{%s}a\\end{%s} b \\%s c' % (E, E, E), '\\%s c \\begin{%s}a\\end{%s} b' % (E, E, E)):
+            for mm in (MATH_MODES if quick else MATH_MODES):
+                yield {'s': s, 'o': dict(DEFAULT_OPTS, mm=mm)}
+    for M in [m for m in D['macros'] if m.isalpha()][::(6 if quick else 1)] + ['item', 'href', 'input', 'uebung', 'textbf', 'frac', 'maketitle', 'verb', 'footnote', 'sqrt']:
+        yield {'s': '\\%s{x} \\begin{%s}a\\end{%s} b' % (M, M, M), 'o': dict(DEFAULT_OPTS)}
+        yield {'s': '\\begin{%s}a\\end{%s} b \\%s{x}' % (M, M, M), 'o': dict(DEFAULT_OPTS, mm='with-delimiters')}
     # the recognised callables and constructs, each under the full option sweep
     probes = ['\\href', '\\href{u}{t}', '\\emph\\uebung', '\\uebung{a}[b]', '\\emph\\input', '\\input{f}', '\\begin{pmatrix}\\end{pmatrix}',
               '\\begin{pmatrix} a & b \\\\ c & d\\end{pmatrix}', '\\verb{', '\\verb|x| y', '\\title{T}\\author{A}\\date{D}\\maketitle',
